@@ -251,13 +251,26 @@ impl Prop for Loader {
     }
 }
 
+pub fn classify_text(b: &[u8]) -> Option<(String, String, &'static str, serde_json::Value)> {
+    let text = String::from_utf8_lossy(b).to_string();
+    match judge_text(&text) {
+        Ok(_) => None,
+        Err((s, d)) => Some((s, d, "texts", serde_json::json!({ "text": text }))),
+    }
+}
+
 pub fn def() -> PropertyDef {
     PropertyDef {
         id: "C17",
         level: "exploration",
         rule: "texts: (a) token soup of master-file and hosts-file fragments (directives, mnemonics, numbers at and beyond u32, escapes incl. \\2, \\25, \\256, \\999, quotes, parentheses) mixed with NUL, control characters, U+0085, U+2028, RTL override, astral characters and arbitrary scalar values; (b) valid zone files from the C11 renderer and (c) valid hosts files from the C14 generator, each damaged by 1..3 grammar-aware mutations (drop/duplicate a character, insert an odd character or fragment, truncate, remove a quote/parenthesis/backslash/newline, bump a digit); plus an enumerated set of very long inputs (1 MB tokens, lines, escapes; 100k parentheses; 50k entries) and every odd character in every small context. Both Zone::deserialise and Hosts::deserialise must return (no panic; stack overflow or abort is caught as a worker crash; a hang shows as exit 2) and accepted values must survive serialise + re-parse. loader: load_zone_configuration on a scratch directory holding the text as zone and hosts file (every third case with an extra non-UTF-8 file) returns without panicking, and returns None when the non-UTF-8 file is present. Non-trivial = the text contains an escape, quote or parenthesis; distinct by hash of the text.",
         assumptions: vec!["runs on a 2 MiB thread in a child process, release profile"],
-        parts: vec![Box::new(Texts), Box::new(Loader)],
+        parts: vec![
+            Box::new(crate::fuzzrun::CorpusPart { name: "corpus-zone", target: "zone_total", classify: classify_text }),
+            Box::new(crate::fuzzrun::FuzzPart { name: "fuzz-zone_total", target: "zone_total", runs_per_job: 500_000, jobs: 8, max_len: 4_096, classify: classify_text }),
+            Box::new(Texts),
+            Box::new(Loader),
+        ],
         budget_s: |t| t.pick(900, 10_800),
         needs_repo_bins: false,
     }
